@@ -382,7 +382,7 @@ func HarnessNonBlocking() {
 	V := newNode("V", memstore.New())
 	V.block = make(chan struct{})
 	V.free = vrt.Choice("free", 3) // deliveries that return before the callback starts blocking
-	c := 1 + vrt.Choice("checkpoints", 4)
+	c := 1 + vrt.Choice("checkpoints", vrt.Param("maxbatches", 3))
 	total := 0 // checkpoints written
 	idx := uint64(2)
 	var cps []uint64
@@ -390,7 +390,7 @@ func HarnessNonBlocking() {
 		e := mkEntry(idx, "e")
 		cp := cpEntry(idx+1, 3)
 		batch := []*raft.Log{e, cp}
-		if k == 0 && vrt.Bool("two-checkpoints-in-one-batch") {
+		if vrt.Choice("checkpoints-in-batch", 2) == 1 {
 			// a batch may carry several checkpoints; each still needs its report or its counted drop
 			batch = append(batch, mkEntry(idx+2, "e"), cpEntry(idx+3, 3))
 			total++
